@@ -193,6 +193,15 @@ func (a *Attributes) XXX_UnmarshalByFlags(flags uint32, buf *Buffer) (err error)
 
 	if a.Flags&AttrExtended != 0 {
 		count := buf.ConsumeCount()
+		if buf.Err != nil {
+			return buf.Err
+		}
+
+		// Each extended attribute is at least two length-prefixed strings (8 bytes):
+		// a larger count cannot fit in what is left, and must not size an allocation.
+		if count > buf.Len()/8 {
+			return ErrShortPacket
+		}
 
 		a.ExtendedAttributes = make([]ExtendedAttribute, count)
 		for i := range a.ExtendedAttributes {
